@@ -1,6 +1,7 @@
 """C09 — the fixed-point engine returns the least solution of the data-flow equations (DESIGN §6 C09)."""
 ID = "C09"
 HARNESS_BIN = "c09"
+DRIVER_TAKES_ANSWER = True   # the driver re-checks falcon's own `ok` answers against the equations (falcon-unsound)
 DRIVER = "fvd_c09"
 LEAN_TARGETS = ["FalconProofs.Props.C09", "fvd_c09"]
 PROPS_MODULE = "FalconProofs.Props.C09"
@@ -40,6 +41,9 @@ def classify(c):
             return "violation"
     elif s == "unsound":
         return "violation" if impl == model else "broken"
+    elif s == "falcon-unsound":
+        return "violation"      # falcon returned Ok with a map that does not solve the equations
+
     elif s in ("-", "?", "sound"):
         pass
     elif impl != s:
